@@ -54,6 +54,7 @@ type Contract struct {
 	Lemma    bool
 	Used     bool
 	Notes    []string
+	Ghosts   []*SpecFunc // per-application uninterpreted witness functions
 }
 
 // SpecFunc is a pure specification function, expanded as a macro (with body)
@@ -69,6 +70,7 @@ type SpecFunc struct {
 
 // GlobalFact is a trusted fact about package-level variables.
 type GlobalFact struct {
+	Axiom   bool
 	PkgPath string
 	E       Expr
 	Text    string
@@ -119,7 +121,7 @@ func fullKey(pkgPath, key string) string {
 }
 
 var clauseKinds = map[string]bool{"requires": true, "ensures": true, "exsures": true, "assigns": true,
-	"property": true, "loop": true, "trusted": true, "inline": true, "pure": true, "maypanic": true, "mode": true, "note": true, "lemma": true}
+	"property": true, "loop": true, "trusted": true, "inline": true, "pure": true, "maypanic": true, "ghost": true, "mode": true, "note": true, "lemma": true}
 
 // ParseContractFile reads //@ lines from a Go file (package contracts) or a .spec file (trusted, external).
 func (cs *ContractSet) ParseContractFile(path, pkgPath string, trusted bool) error {
@@ -251,12 +253,12 @@ func (cs *ContractSet) ParseContractFile(path, pkgPath string, trusted bool) err
 			lastSpec = sf
 			specBody = &strings.Builder{}
 			specBody.WriteString(bodyTxt)
-		case head == "global":
+		case head == "global" || head == "axiom":
 			if err := flushAll(); err != nil {
 				return err
 			}
 			cur = nil
-			lastGlobal = &GlobalFact{PkgPath: pkgPath, Where: where}
+			lastGlobal = &GlobalFact{PkgPath: pkgPath, Where: where, Axiom: head == "axiom"}
 			globalBody = &strings.Builder{}
 			globalBody.WriteString(rest)
 		case clauseKinds[head] && cur != nil:
@@ -280,6 +282,13 @@ func (cs *ContractSet) ParseContractFile(path, pkgPath string, trusted bool) err
 				cur.Mode = rest
 			case "note":
 				cur.Notes = append(cur.Notes, rest)
+			case "ghost":
+				sf, _, err := parseSpecHeader(rest)
+				if err != nil {
+					return fmt.Errorf("%s: %v", where, err)
+				}
+				sf.PkgPath, sf.Where = pkgPath, where
+				cur.Ghosts = append(cur.Ghosts, sf)
 			case "loop":
 				// loop N invariant|decreases|unroll ...
 				if len(fields) < 3 {
